@@ -12,11 +12,22 @@ type ContextSettings struct {
 
 type ContextApply func(c *ContextSettings)
 
+// The principal node type of the axis of the step being evaluated.  Name
+// tests only select nodes of this type.
+type principalNodeType int
+
+const (
+	principalElement principalNodeType = iota
+	principalAttribute
+	principalNamespace
+)
+
 type exprContext struct {
 	root             store.Cursor
 	result           Result
 	contextPosition  int
 	contextSize      int
+	principal        principalNodeType
 	builtinFunctions map[XmlName]Function
 	ContextSettings
 }
@@ -45,6 +56,7 @@ func (e *exprContext) copy() exprContext {
 		result:           e.result,
 		contextPosition:  e.contextPosition,
 		contextSize:      e.contextSize,
+		principal:        e.principal,
 		builtinFunctions: builtinFunctions,
 		ContextSettings:  e.ContextSettings,
 	}
